@@ -131,11 +131,42 @@ impl Selector {
                     }
                 }
                 SelectorComponent::CombDescendant => {
-                    if let Some(parent) = node.get_parent() {
-                        Self::do_matches(&comps[1..], &parent) || Self::do_matches(comps, &parent)
-                    } else {
-                        false
+                    // Split the rest of the selector into the compound
+                    // selector the ancestor itself has to match, and
+                    // whatever comes above that.
+                    let rest = &comps[1..];
+                    let is_combinator = |c: &SelectorComponent| {
+                        matches!(
+                            c,
+                            SelectorComponent::CombChild | SelectorComponent::CombDescendant
+                        )
+                    };
+                    let compound_len = rest
+                        .iter()
+                        .position(is_combinator)
+                        .unwrap_or(rest.len());
+                    let (compound, above) = rest.split_at(compound_len);
+                    // If what comes above is reached by another descendant
+                    // combinator (or is nothing), then it can only get harder
+                    // to match from further up, so the nearest matching
+                    // ancestor decides.  Only a child combinator needs us to
+                    // try the other ancestors.
+                    let nearest_decides =
+                        !matches!(above.first(), Some(SelectorComponent::CombChild));
+                    // Walk up the ancestors in a loop: both recursing per
+                    // ancestor and retrying every ancestor at every level
+                    // blow up on deeply nested documents.
+                    let mut ancestor = node.get_parent();
+                    while let Some(candidate) = ancestor {
+                        if Self::do_matches(compound, &candidate) {
+                            let matched = Self::do_matches(above, &candidate);
+                            if matched || nearest_decides {
+                                return matched;
+                            }
+                        }
+                        ancestor = candidate.get_parent();
                     }
+                    false
                 }
                 SelectorComponent::NthChild { a, b, sel } => {
                     let parent = if let Some(parent) = node.get_parent() {
